@@ -22,6 +22,11 @@ What is proved here
 * `gather_ani_fields`, `gather_ani_real` (T-gather_ani): the ANI fields of `calculate_gather_stats`
   are these functions of the containments it reports; average = mean, max = max, all within [0,1].
 
+* `gather_point_ignores_remaining`, `gather_point_from_original`: the point estimates (and the two
+  containments they belong to) come from the intersection with the ORIGINAL query, whatever the
+  remaining query is; `ci_history_independent`, `ci_history_pointwise`: the model of a thread answering
+  interval requests carries no state.
+
 NOT decided by proof (runtime only, searched by `./check C19` over the grid of the property's quantifier):
 * `low ≤ point ≤ high` for the **computed** interval — it depends on which root `roots::find_root_brent`
   returns in binary64 and on `statrs`' probit;
@@ -404,5 +409,66 @@ theorem gather_refuses_coarser {α : Type} [RealLike α]
   simp [gatherStatsAni, h]
 
 example : (100 : Nat) < 1000 := by decide
+
+/-! ### which query the point estimates are computed from -/
+
+/-- T-gather_ani, "for the containments it reports": the two reported containments `f_orig_query` /
+`f_match_orig` and the four point-estimate fields (query / match / average / max containment ANI) are
+computed from the intersection of the match with the **original** query: they are the same whatever the
+remaining (already subtracted) query is — equal to the original, partially subtracted, disjoint from the
+match, or empty.  (Only `f_unique_to_query` and the two intervals depend on it.) -/
+theorem gather_point_ignores_remaining {α : Type} [RealLike α]
+    (ci : α → Nat → Nat → Nat → Option α → α × α)
+    (maxHashQ k qScaled mScaled : Nat) (orig rem₁ rem₂ mat : List Nat) (matchSizeArg : Nat)
+    (calcCi : Bool) (conf : Option α) :
+    (gatherStatsAni ci maxHashQ k qScaled mScaled orig rem₁ mat matchSizeArg calcCi conf).map
+        (fun x => (x.1.fOrigQuery, x.1.fMatchOrig, x.2.1.queryContainmentAni, x.2.1.matchContainmentAni,
+                   x.2.1.averageContainmentAni, x.2.1.maxContainmentAni))
+      = (gatherStatsAni ci maxHashQ k qScaled mScaled orig rem₂ mat matchSizeArg calcCi conf).map
+        (fun x => (x.1.fOrigQuery, x.1.fMatchOrig, x.2.1.queryContainmentAni, x.2.1.matchContainmentAni,
+                   x.2.1.averageContainmentAni, x.2.1.maxContainmentAni)) := by
+  unfold gatherStatsAni
+  by_cases h : mScaled > qScaled <;> simp [h, gatherAni, gatherRatios]
+
+/-- … in particular for a match whose shared hashes were all claimed by earlier matches (remaining
+query disjoint from the match): the point estimates are still `ani_from_containment` of
+`|match ∩ original| / |original|` and `|match ∩ original| / |match|`, not 0. -/
+theorem gather_point_from_original {α : Type} [RealLike α]
+    (ci : α → Nat → Nat → Nat → Option α → α × α)
+    (maxHashQ k qScaled mScaled : Nat) (orig remaining mat : List Nat) (matchSizeArg : Nat)
+    (calcCi : Bool) (conf : Option α) (h : mScaled ≤ qScaled) :
+    ∃ r g nu, gatherStatsAni ci maxHashQ k qScaled mScaled orig remaining mat matchSizeArg calcCi conf
+        = some (r, g, nu) ∧
+      let m := downsampleTo maxHashQ qScaled mScaled mat
+      r.fOrigQuery = lit (isectSize m orig) / lit orig.length ∧
+      r.fMatchOrig = lit (isectSize m orig) / lit m.length ∧
+      g.queryContainmentAni = aniFromContainment r.fOrigQuery (lit k) ∧
+      g.matchContainmentAni = aniFromContainment r.fMatchOrig (lit k) := by
+  have h1 : ¬ mScaled > qScaled := by omega
+  simp [gatherStatsAni, h1, gatherAni, gatherRatios]
+
+/-- non-vacuity: a match (hashes 1..4) that shares {1,2} with the original query {1,2,9} while the
+remaining query {9} is disjoint from it -/
+example : isectSize [1, 2, 3, 4] [1, 2, 9] = 2 ∧ isectSize [1, 2, 3, 4] [9] = 0 ∧ (1000 : Nat) ≤ 1000 := by
+  decide
+
+/-! ### the interval function keeps no history -/
+
+/-- order independence: on one thread, the answer to an interval request is the function's value at that
+request whatever was asked before — the last answer of any history ending in `q` is the answer to `q`
+alone.  (This is what the `fresh-same` token of the `ci` spec column demands of the real code.) -/
+theorem ci_history_independent {α : Type} [RealLike α]
+    (brent : α → α → (α → α) → Option α) (probit : α → α) (h₁ h₂ : List (CiReq α)) (q : CiReq α) :
+    (ciAnswers brent probit (h₁ ++ [q])).getLast? = (ciAnswers brent probit (h₂ ++ [q])).getLast? ∧
+    (ciAnswers brent probit (h₁ ++ [q])).getLast?
+      = some (aniCiFromContainment brent probit q.c q.k q.scaled q.n q.conf) := by
+  simp [ciAnswers]
+
+/-- every answer of a history, not only the last: the `i`-th answer is the value at the `i`-th request -/
+theorem ci_history_pointwise {α : Type} [RealLike α]
+    (brent : α → α → (α → α) → Option α) (probit : α → α) (h : List (CiReq α)) (i : Nat) :
+    (ciAnswers brent probit h)[i]? =
+      h[i]?.map fun q => aniCiFromContainment brent probit q.c q.k q.scaled q.n q.conf := by
+  simp [ciAnswers]
 
 end Sourmash.C19
